@@ -264,8 +264,29 @@ func runSearch(s *search.Search, cap *capture, j *Job, rec *Rec, watchdog time.D
 	case e := <-done:
 		rec.Error = e
 	case <-time.After(watchdog):
-		rec.Error = fmt.Sprintf("HANG: search did not terminate within %s", watchdog)
-		return false
+		// slow or hung? A search that still visits nodes is working (a loaded machine, an expensive combination of
+		// switches): it is given ten times the watchdog. HANG = no node visited for two seconds; SLOW = still
+		// visiting nodes when the extended time is up (a verdict only for searches whose limit should have ended them).
+		waited := watchdog
+		for finished := false; !finished; {
+			n1 := s.NodesVisited()
+			select {
+			case e := <-done:
+				rec.Error = e
+				finished = true
+				continue
+			case <-time.After(2 * time.Second):
+			}
+			waited += 2 * time.Second
+			if s.NodesVisited() == n1 {
+				rec.Error = fmt.Sprintf("HANG: search did not terminate within %s and visits no nodes any more", waited)
+				return false
+			}
+			if waited > 10*watchdog {
+				rec.Error = fmt.Sprintf("SLOW: search still visiting nodes after %s (%d nodes)", waited, s.NodesVisited())
+				return false
+			}
+		}
 	}
 	rec.ElapsedMs = float64(time.Since(start).Microseconds()) / 1000
 	if rec.Error != "" {
